@@ -1863,6 +1863,485 @@ theorem groupby_c15_compute_spec (width : Nat) (t : C15.Tree) (vs : List C15.Ite
 
 end Ext6
 
+/-! ## Review follow-up: sentence 1 for every history, own keys only, GroupBy with mixed keys, Count.fill_into,
+Graph built from points and context, Vectorize over a list of different components, n-d Histogram per cell -/
+
+section Rev1
+variable {σ ι ο δ : Type}
+
+/-! ### Sentence 1 for every history: computes between the fills do not matter -/
+
+/-- the values of the `fill` calls of a history -/
+def fillsOf : List (Op ι) → List ι
+  | [] => []
+  | .fill v :: ops => v :: fillsOf ops
+  | _ :: ops => fillsOf ops
+
+/-- the history has no `reset` -/
+def noReset : List (Op ι) → Bool
+  | [] => true
+  | .reset :: _ => false
+  | _ :: ops => noReset ops
+
+/-- **Generic.**  If `compute` leaves the element in a state that shows the same things (`Sim`, a simulation that
+is reflexive and transitive), then for every history of fills and computes (no reset) a final `compute()` yields
+what it yields after the fills alone — so every `x_compute_spec` holds after any such history, not only after
+`fill*` -/
+theorem compute_after_history (m : Machine σ ι ο) (Sim : σ → σ → Prop)
+    (hrefl : ∀ s, Sim s s) (htrans : ∀ a b c, Sim a b → Sim b c → Sim a c)
+    (hstep : ∀ s t op, Sim s t → (m.step s op).2 = (m.step t op).2 ∧ Sim (m.step s op).1 (m.step t op).1)
+    (hcomp : ∀ s, Sim (m.compute s).1 s)
+    (h : List (Op ι)) (hnr : noReset h = true) :
+    (m.compute (m.run m.init h).1).2 = (m.compute (m.fillAll m.init (fillsOf h))).2 := by
+  have key : ∀ (h : List (Op ι)) (s t : σ), noReset h = true → Sim s t →
+      Sim (m.run s h).1 (m.fillAll t (fillsOf h)) := by
+    intro h
+    induction h with
+    | nil => intro s t _ hst; exact hst
+    | cons op ops ih =>
+      intro s t hnr hst
+      cases op with
+      | fill v =>
+        simp only [Machine.run, fillsOf, fillAll_cons]
+        exact ih _ _ (by simpa [noReset] using hnr) (hstep s t (.fill v) hst).2
+      | compute =>
+        simp only [Machine.run, fillsOf]
+        exact ih _ _ (by simpa [noReset] using hnr) (htrans _ _ _ (hcomp s) hst)
+      | reset => simp [noReset] at hnr
+  have hs := key h m.init m.init hnr (hrefl _)
+  have := (hstep _ _ .compute hs).1
+  simpa [Machine.step] using this
+
+/-- the instance for elements whose `compute` does not change them (Sum, DSum, Mean, VarianceMeanCount, StoreFilled,
+GroupBy, Histogram) -/
+theorem compute_after_history_pure (m : Machine σ ι ο) (hcomp : ∀ s, (m.compute s).1 = s)
+    (h : List (Op ι)) (hnr : noReset h = true) :
+    (m.compute (m.run m.init h).1).2 = (m.compute (m.fillAll m.init (fillsOf h))).2 :=
+  compute_after_history m Eq (fun _ => rfl) (fun _ _ _ h1 h2 => h1.trans h2)
+    (fun s t op hst => by subst hst; exact ⟨rfl, rfl⟩) hcomp h hnr
+
+/-- after the last `reset()` of any history, a final `compute()` yields the aggregate of the fills since that
+reset on a new element: sentences 1 and 2 together -/
+theorem compute_after_reset_history (m m' : Machine σ ι ο)
+    (hfresh : ∀ h1 h2, (m.run (m.run m.init (h1 ++ [Op.reset])).1 h2).2 = m'.observe h2)
+    (hcomp : ∀ s, (m'.compute s).1 = s)
+    (h1 h2 : List (Op ι)) (hnr : noReset h2 = true) :
+    (m.compute (m.run (m.run m.init (h1 ++ [Op.reset])).1 h2).1).2
+      = (m'.compute (m'.fillAll m'.init (fillsOf h2))).2 := by
+  have := hfresh h1 (h2 ++ [Op.compute])
+  simp only [Machine.observe, Machine.run_append, Machine.run, Machine.step] at this
+  have hl := congrArg List.getLast? this
+  simp only [List.getLast?_append, List.getLast?_singleton, Option.some_or] at hl
+  injection hl with hl
+  injection hl with hl
+  have e : (m.run m.init (h1 ++ [Op.reset])).1 = m.reset (m.run m.init h1).1 := by
+    simp [Machine.run_append, Machine.run, Machine.step]
+  rw [e, hl]
+  exact compute_after_history_pure m' hcomp h2 hnr
+
+/-- Sum after any history of fills and computes -/
+theorem sum_compute_after_history (t0 : Int) (h : List (Op (Item Int))) (hnr : noReset h = true) :
+    ((sumM t0).compute ((sumM t0).run (sumM t0).init h).1).2
+      = .ok [withCtx (t0 + dataSum (fillsOf h)) (ctxAfter [] (fillsOf h))] := by
+  rw [compute_after_history_pure (sumM t0) (fun _ => rfl) h hnr, sum_compute_spec]
+
+theorem mean_compute_after_history (cfg : MeanCfg) (h : List (Op (Item Int))) (hnr : noReset h = true) :
+    ((meanM cfg).compute ((meanM cfg).run (meanM cfg).init h).1).2
+      = if fillsOf h = [] then (if cfg.passOnEmpty then .ok [] else .error .zeroDivision)
+        else .ok [withCtx ((dataSum (fillsOf h) : Rat) / ((fillsOf h).length : Rat)) (ctxAfter [] (fillsOf h))] := by
+  rw [compute_after_history_pure (meanM cfg) (fun _ => rfl) h hnr, mean_compute_spec]
+
+theorem vmc_compute_after_history (cfg : VmcCfg) (h : List (Op (Item Int))) (hnr : noReset h = true) :
+    ((vmcM cfg).compute ((vmcM cfg).run (vmcM cfg).init h).1).2
+      = ((vmcM cfg).compute ((vmcM cfg).fillAll (vmcM cfg).init (fillsOf h))).2 :=
+  compute_after_history_pure (vmcM cfg) (fun _ => rfl) h hnr
+
+theorem dsum_compute_after_history (t0 : Dec) (h : List (Op (Item Dy))) (hnr : noReset h = true) :
+    ∃ d : Dec, ((dsumM t0).compute ((dsumM t0).run (dsumM t0).init h).1).2
+        = .ok [withCtx d (ctxAfter [] (fillsOf h))] ∧ d.toRat = t0.toRat + dySum (fillsOf h) := by
+  rw [compute_after_history_pure (dsumM t0) (fun _ => rfl) h hnr]
+  exact dsum_exact t0 (fillsOf h)
+
+theorem store_compute_after_history (g : Bool) (h : List (Op ι)) (hnr : noReset h = true) :
+    ((storeFilledM ι g).compute ((storeFilledM ι g).run (storeFilledM ι g).init h).1).2
+      = .ok (if g then [Stored.group (fillsOf h)] else (fillsOf h).map Stored.one) := by
+  rw [compute_after_history_pure (storeFilledM ι g) (fun _ => rfl) h hnr, store_compute_spec]
+
+theorem hist_compute_after_history (cfg : HistCfg) (s0 : HistSt) (h : List (Op (Item Int))) (hnr : noReset h = true) :
+    ((histogramM cfg s0).compute ((histogramM cfg s0).run (histogramM cfg s0).init h).1).2
+      = ((histogramM cfg s0).compute ((histogramM cfg s0).fillAll (histogramM cfg s0).init (fillsOf h))).2 :=
+  compute_after_history_pure (histogramM cfg s0) (fun _ => rfl) h hnr
+
+theorem Ctx.set_set (c : Ctx) (k : String) (v w : Leaf) : (c.set k v).set k w = c.set k w := by
+  induction c with
+  | nil => simp [Ctx.set]
+  | cons kv rest ih =>
+    obtain ⟨k₀, v₀⟩ := kv
+    by_cases h : k₀ = k
+    · simp [Ctx.set, h]
+    · simp [Ctx.set, h, ih]
+
+/-- Count: `compute()` writes its own key into the stored context, but that is idempotent ("compute is
+idempotent", as the source says) and the next fill replaces the context: after any history of fills and computes
+a final `compute()` yields the count of the fills and the last filled context with the counter's key -/
+theorem count_compute_after_history (cfg : CountCfg) (h : List (Op (Item δ))) (hnr : noReset h = true) :
+    ((countM δ cfg).compute ((countM δ cfg).run (countM δ cfg).init h).1).2
+      = .ok [⟨cfg.count0 + (fillsOf h).length,
+              some ((ctxAfter [] (fillsOf h)).set cfg.name (some (cfg.count0 + (fillsOf h).length)))⟩] := by
+  rw [compute_after_history (countM δ cfg)
+    (fun s t => s.count = t.count ∧ s.ctx.set cfg.name (some s.count) = t.ctx.set cfg.name (some t.count))
+    (fun _ => ⟨rfl, rfl⟩) (fun a b c h1 h2 => ⟨h1.1.trans h2.1, h1.2.trans h2.2⟩) ?_ ?_ h hnr, count_compute_spec]
+  · intro s t op hst
+    cases op with
+    | fill v => simp [Machine.step, countM, Count.fill, hst.1]
+    | compute =>
+      have h2 := hst.2
+      rw [hst.1] at h2
+      simp [Machine.step, countM, Count.compute, hst.1, h2, Ctx.set_set]
+    | reset => simp [Machine.step, countM, Count.reset]
+  · intro s
+    simp [countM, Count.compute, Ctx.set_set]
+
+example : noReset ([.fill (⟨1, none⟩ : Item Int), .compute, .fill ⟨2, none⟩] : List (Op (Item Int))) = true := rfl
+
+
+end Rev1
+
+section Rev2
+variable {σ ι ο δ κ : Type}
+
+/-! ### "extended only by the element's own documented keys" -/
+
+/-- the binding of a key: `none` = the key is absent (unlike `Ctx.get`, which is `dict.get`) -/
+def Ctx.lookup : Ctx → String → Option Leaf
+  | [], _ => none
+  | (k', v') :: rest, k => if k' = k then some v' else Ctx.lookup rest k
+
+theorem Ctx.lookup_set (c : Ctx) (k : String) (v : Leaf) (k' : String) :
+    (c.set k v).lookup k' = if k' = k then some v else c.lookup k' := by
+  induction c with
+  | nil =>
+    by_cases h : k' = k
+    · simp [Ctx.set, Ctx.lookup, h]
+    · have h' : ¬ k = k' := fun e => h e.symm
+      simp [Ctx.set, Ctx.lookup, h, h']
+  | cons kv rest ih =>
+    obtain ⟨k₀, v₀⟩ := kv
+    by_cases h0 : k₀ = k
+    · subst h0
+      by_cases h : k' = k₀
+      · subst h; simp [Ctx.set, Ctx.lookup]
+      · have h' : ¬ k₀ = k' := fun e => h e.symm
+        simp [Ctx.set, Ctx.lookup, h, h']
+    · by_cases h : k₀ = k'
+      · subst h
+        simp [Ctx.set, Ctx.lookup, h0]
+      · simp [Ctx.set, Ctx.lookup, h0, h, ih]
+
+/-- Count: every key other than the counter's name is present in the yielded context exactly when it is in the
+last filled context, with the same value; the counter's name is bound to the count -/
+theorem count_own_key_only (cfg : CountCfg) (vs : List (Item δ)) :
+    ∃ d c, ((countM δ cfg).compute ((countM δ cfg).fillAll (countM δ cfg).init vs)).2 = .ok [⟨d, some c⟩]
+      ∧ c.lookup cfg.name = some (some (cfg.count0 + vs.length))
+      ∧ ∀ k, k ≠ cfg.name → c.lookup k = (ctxAfter [] vs).lookup k := by
+  refine ⟨_, _, count_compute_spec cfg vs, ?_, ?_⟩
+  · simp [Ctx.lookup_set]
+  · intro k hk; simp [Ctx.lookup_set, hk]
+
+/-- the context `Graph.compute` yields (when it yields) -/
+def Graph.outCtx (cfg : GraphCfg) (s : GraphSt) : Ctx :=
+  let scale := match s.ctx.get "scale" with | some c => some c | none => s.scale
+  let pts := if cfg.sort then s.points.mergeSort Pt.le else s.points
+  let c1 := (s.ctx.set "scale" cfg.scale0).set "scale" scale
+  if pts.isEmpty then c1 else c1.set "dim" (some 1)
+
+/-- the flow's scale contradicts the scale of the graph -/
+def Graph.conflict (s : GraphSt) : Bool :=
+  match s.ctx.get "scale", s.scale with
+  | some c, some sc => sc != c
+  | _, _ => false
+
+theorem Graph.compute_eq (cfg : GraphCfg) (s : GraphSt) :
+    Graph.compute cfg s =
+      if Graph.conflict s then (s, .error .runtimeError)
+      else
+        let scale := match s.ctx.get "scale" with | some c => some c | none => s.scale
+        let pts := if cfg.sort then s.points.mergeSort Pt.le else s.points
+        (⟨pts, scale, s.ctx⟩, .ok [⟨pts, scale, Graph.outCtx cfg s⟩]) := by
+  unfold Graph.compute Graph.conflict Graph.outCtx
+  rfl
+
+theorem graph_compute_cases (cfg : GraphCfg) (s : GraphSt) :
+    (Graph.compute cfg s).2 = .error .runtimeError
+    ∨ ∃ pts sc, (Graph.compute cfg s).2 = .ok [⟨pts, sc, Graph.outCtx cfg s⟩] := by
+  rw [Graph.compute_eq]
+  cases Graph.conflict s
+  · exact Or.inr ⟨_, _, rfl⟩
+  · exact Or.inl rfl
+
+/-- Graph: the yielded context agrees with the last filled context on every key other than `scale` and `dim`
+(present exactly when it was, with the same value) -/
+theorem graph_own_keys_only (cfg : GraphCfg) (s : GraphSt) (k : String) (hk1 : k ≠ "scale") (hk2 : k ≠ "dim") :
+    (Graph.outCtx cfg s).lookup k = s.ctx.lookup k := by
+  unfold Graph.outCtx
+  simp only []
+  cases (if cfg.sort = true then s.points.mergeSort Pt.le else s.points).isEmpty <;> simp [Ctx.lookup_set, hk1, hk2]
+
+/-- a scale found in the last filled context is adopted by `compute()` and stays (`Graph._update`) -/
+theorem graph_scale_adopted (cfg : GraphCfg) (s : GraphSt) (c : Int) (hc : s.ctx.get "scale" = some c)
+    (hok : s.scale = none ∨ s.scale = some c) :
+    (Graph.compute cfg s).1.scale = some c := by
+  unfold Graph.compute
+  rcases hok with h | h <;> simp [hc, h]
+
+/-! ### GroupBy: values whose key cannot be rendered, mixed with others -/
+
+theorem groupByOpt_fillAll_mixed [DecidableEq κ] (s : List (κ × List ι)) (kvs : List (Option κ × ι)) :
+    (groupByOptM κ ι).fillAll s kvs
+      = (groupByM κ ι).fillAll s (kvs.filterMap (fun kv => kv.1.map (fun k => (k, kv.2)))) := by
+  induction kvs generalizing s with
+  | nil => rfl
+  | cons kv kvs ih =>
+    obtain ⟨k, v⟩ := kv
+    rw [fillAll_cons]
+    cases k with
+    | none => simp only [List.filterMap_cons, Option.map_none]; rw [← ih]; rfl
+    | some k => simp only [List.filterMap_cons, Option.map_some, fillAll_cons]; rw [← ih]; rfl
+
+/-- GroupBy yields the groups of the values whose key could be rendered; the others raised `LenaValueError`
+and left no trace -/
+theorem groupByOpt_compute_spec [DecidableEq κ] (kvs : List (Option κ × ι)) :
+    ((groupByOptM κ ι).compute ((groupByOptM κ ι).fillAll (groupByOptM κ ι).init kvs)).2 =
+      let good := kvs.filterMap (fun kv => kv.1.map (fun k => (k, kv.2)))
+      .ok ((firstKeys (good.map (·.1))).map
+            (fun k => Stored.group ((good.filter (fun kv => kv.1 = k)).map (·.2)))) := by
+  have := groupby_compute_spec (kvs.filterMap (fun kv => kv.1.map (fun k => (k, kv.2))))
+  simp only [groupByOptM, groupByM] at this ⊢
+  rw [← this]
+  have e := groupByOpt_fillAll_mixed (κ := κ) (ι := ι) [] kvs
+  simp only [groupByOptM, groupByM] at e
+  rw [e]
+
+/-! ### Count.fill_into -/
+
+/-- `Count.fill_into`: the counter grows by one, the value is handed on with `{name: counter}` added to its
+context (and nothing else changed) -/
+theorem count_fillInto_spec (cfg : CountCfg) (s : CountSt) (v : Item δ) :
+    (Count.fillInto cfg s v).1 = ⟨s.count + 1, s.ctx⟩
+    ∧ (Count.fillInto cfg s v).2.data = v.data
+    ∧ (∃ c, (Count.fillInto cfg s v).2.ctx = some c ∧ c.lookup cfg.name = some (some (s.count + 1))
+        ∧ ∀ k, k ≠ cfg.name → c.lookup k = v.context.lookup k) := by
+  refine ⟨rfl, rfl, _, rfl, ?_, ?_⟩
+  · simp [Ctx.lookup_set]
+  · intro k hk; simp [Ctx.lookup_set, hk]
+
+/-! ### Graph built from points and a context -/
+
+/-- `Graph(points, context, scale, sort)` after `reset()`: "Reset points to an empty list and current context to
+an empty dict" (and the scale to the `scale` argument) — every later history shows what it shows on
+`Graph(scale=scale, sort=sort)`, the documented empty start (the given points and context are initial
+values that reset does not restore, like `Sum(total)`) -/
+theorem graph_from_reset_fresh (cfg : GraphCfg) (hr : cfg.resetScale = true) (s0 : GraphSt)
+    (h1 h2 : List (Op (Item Pt))) :
+    ((graphFromM cfg s0).run ((graphFromM cfg s0).run (graphFromM cfg s0).init (h1 ++ [Op.reset])).1 h2).2
+      = (graphM cfg).observe h2 :=
+  reset_fresh_of_const (graphFromM cfg s0) (graphM cfg) rfl rfl rfl
+    (fun s => by simp [graphFromM, graphM, Graph.reset, hr]) h1 h2
+
+/-- … and it is NOT what a second `Graph(points, context, …)` shows: sentence 2 read with "the same constructor
+arguments" is false for the code; the judgement recorded in DESIGN is the documented empty start -/
+theorem graph_from_reset_not_same_args :
+    ∃ (cfg : GraphCfg) (s0 : GraphSt), cfg.resetScale = true ∧ Graph.new cfg [(0, 1)] [("a", some 1)] = .ok s0 ∧
+      ((graphFromM cfg s0).run ((graphFromM cfg s0).run (graphFromM cfg s0).init [Op.reset]).1 [.compute]).2
+        ≠ (graphFromM cfg s0).observe [.compute] := by
+  refine ⟨⟨none, false, true⟩, ⟨[(0, 1)], none, [("a", some 1)]⟩, rfl, rfl, ?_⟩
+  intro h
+  simp [Machine.run, Machine.step, Machine.observe, graphFromM, graphM, Graph.compute, Graph.reset, Ctx.get, Ctx.set] at h
+
+
+end Rev2
+
+section Rev3
+variable {σ σ₁ σ₂ ι ο ο₁ ο₂ δ : Type}
+
+/-! ### Vectorize over a list of different components -/
+
+/-- `Vectorize([seq₀, seq₁, …])` after `reset()`: `home s` is the state the component's own `reset` leaves it in;
+it depends only on which component it is (it is kept by `fill`, `compute`, `reset`), and the list starts from such
+states.  Then every later history shows what it shows on a new `Vectorize` of the same list. -/
+theorem vecL_reset_fresh (m : Machine σ (Item δ) ο) (home : σ → σ)
+    (hres : ∀ s, m.reset s = home s) (hfill : ∀ s v, home (m.fill s v).1 = home s)
+    (hcomp : ∀ s, home (m.compute s).1 = home s) (hhome : ∀ s, home (home s) = home s)
+    (inits : List σ) (hinits : ∀ s ∈ inits, home s = s)
+    (h1 h2 : List (Op (Item (List δ)))) :
+    ((vectorizeLM m inits).run ((vectorizeLM m inits).run (vectorizeLM m inits).init (h1 ++ [Op.reset])).1 h2).2
+      = (vectorizeLM m inits).observe h2 := by
+  have fillGo_home : ∀ (ss : List σ) (ds : List δ), (Vec.fillGo m ss ds).1.map home = ss.map home := by
+    intro ss
+    induction ss with
+    | nil => intro ds; simp [Vec.fillGo]
+    | cons s ss ih =>
+      intro ds
+      cases ds with
+      | nil => simp [Vec.fillGo]
+      | cons d ds =>
+        simp only [Vec.fillGo]
+        split <;> simp [hfill, ih]
+  have computeGo_home : ∀ (ss : List σ), (Vec.computeGo m ss).1.map home = ss.map home := by
+    intro ss
+    induction ss with
+    | nil => simp [Vec.computeGo]
+    | cons s ss ih =>
+      simp only [Vec.computeGo]
+      split <;> simp [hcomp, ih]
+  have hinit : inits.map home = inits := by
+    have : ∀ l : List σ, (∀ s ∈ l, home s = s) → l.map home = l := by
+      intro l
+      induction l with
+      | nil => intro _; rfl
+      | cons a l ih => intro h; simp [h a (by simp), ih (fun s hs => h s (by simp [hs]))]
+    exact this inits hinits
+  apply reset_bisimilar (vectorizeLM m inits) (vectorizeLM m inits) (fun s => s.inner.map home = inits) Eq
+  · exact hinit
+  · intro s op hs
+    cases op with
+    | fill v =>
+      simp only [Machine.step, vectorizeLM, vectorizeM, Vec.fill]
+      split <;> simp [fillGo_home, hs]
+    | compute => simp [Machine.step, vectorizeLM, vectorizeM, Vec.compute, computeGo_home, hs]
+    | reset =>
+      simp only [Machine.step, vectorizeLM, vectorizeM, Vec.reset, List.map_map]
+      rw [← hs]
+      apply List.map_congr_left
+      intro s _
+      simp [hres, hhome]
+  · intro s hs
+    simp only [vectorizeLM, vectorizeM, Vec.reset]
+    congr 1
+    rw [← hs]
+    apply List.map_congr_left
+    intro a _
+    exact hres a
+  · intro s t op hst
+    subst hst
+    exact ⟨rfl, rfl⟩
+
+/-- the instance for a list mixing two kinds of components whose `reset` returns their initial state
+(`[Sum(), Count(), Sum(), …]`) -/
+theorem vecL_or_reset_fresh (m₁ : Machine σ₁ (Item δ) ο₁) (m₂ : Machine σ₂ (Item δ) ο₂)
+    (h₁ : ∀ s, m₁.reset s = m₁.init) (h₂ : ∀ s, m₂.reset s = m₂.init)
+    (kinds : List Bool) (h1 h2 : List (Op (Item (List δ)))) :
+    let inits := kinds.map (fun b => if b then Sum.inl m₁.init else Sum.inr m₂.init)
+    ((vectorizeLM (orM m₁ m₂) inits).run ((vectorizeLM (orM m₁ m₂) inits).run (vectorizeLM (orM m₁ m₂) inits).init
+        (h1 ++ [Op.reset])).1 h2).2 = (vectorizeLM (orM m₁ m₂) inits).observe h2 := by
+  intro inits
+  apply vecL_reset_fresh (orM m₁ m₂)
+    (fun s => match s with | .inl _ => .inl m₁.init | .inr _ => .inr m₂.init)
+  · intro s; cases s <;> simp [orM, h₁, h₂]
+  · intro s v; cases s <;> simp [orM]
+  · intro s; cases s <;> simp [orM]
+  · intro s; cases s <;> rfl
+  · intro s hs
+    simp only [inits, List.mem_map] at hs
+    obtain ⟨b, _, rfl⟩ := hs
+    cases b <;> rfl
+
+example : ((vectorizeLM (orM (sumM 0) (countM Int ⟨"count", 0⟩)) [.inl (sumM 0).init, .inr (countM Int ⟨"count", 0⟩).init]).observe
+      [.fill ⟨[3, 4], none⟩, .reset, .fill ⟨[5, 6], none⟩, .compute])
+    = [.filled none, .wasReset, .filled none,
+       .computed (.ok [⟨[some (.inl ⟨5, none⟩), some (.inr ⟨1, some [("count", some 1)]⟩)], none⟩])] := by rfl
+
+/-! ### Mean around a sum sequence whose values carry contexts -/
+
+/-- `Mean(FillComputeSeq(StoreFilled(False), lambda x: (x, {"v<x>": 1})))`: the first value divided by the
+count, the others unchanged; each yielded context is the last filled context updated with the value's own -/
+theorem mean_tagged_spec (poe : Bool) (v : Item Int) (vs : List (Item Int)) :
+    ((meanOverM storeTagM poe).compute
+        ((meanOverM storeTagM poe).fillAll (meanOverM storeTagM poe).init (v :: vs))).2 =
+      .ok (withCtx ((v.data : Rat) / ((vs.length + 1 : Nat) : Rat))
+              ((ctxAfter [] (v :: vs)).update [("v" ++ toString v.data, some 1)])
+        :: vs.map (fun w => withCtx (w.data : Rat) ((ctxAfter [] (v :: vs)).update [("v" ++ toString w.data, some 1)]))) := by
+  rw [meanOver_compute_spec storeTagM poe (fun _ _ => rfl) (v :: vs) (by simp)]
+  have hst : ∀ (s : List (Item Int)) (ws : List (Item Int)), storeTagM.fillAll s ws = s ++ ws := by
+    intro s ws
+    induction ws generalizing s with
+    | nil => simp [Machine.fillAll]
+    | cons w ws ih => rw [fillAll_cons, ih]; simp [storeTagM]
+  rw [hst]
+  simp [storeTagM, bare, Item.context, List.map_map, Function.comp_def]
+
+
+end Rev3
+
+section Rev4
+open Lena Lena.C06
+
+/-! ### n-dimensional Histogram: which cell, for any initial bins -/
+
+/-- one fill of the element, the value lying in cell `idx`: that cell (and no other) grows by one, the context is
+the value's — for ANY well-formed state (given bins, `make_bins`, `initial_value`, earlier fills) -/
+theorem histnd_fill_cell (s : HistNdSt) (hwf : WF s.hist) (v : Item (Coord Int)) (xs : List Int)
+    (hp : Proper s.hist.edges v.data xs) (idx : List Nat) (hc : InCell s.hist.edges.axes xs idx) :
+    HistogramNd.fill s v = (⟨{ s.hist with bins := NArr.modifyAt (· + 1) s.hist.bins idx }, v.context⟩, none) := by
+  unfold HistogramNd.fill
+  rw [fill_exact_cell bisect bisect_ok hwf hp (1 : Int) hc]
+
+/-- … lying in no cell: `n_out_of_range` grows by one and the bins stay -/
+theorem histnd_fill_out (s : HistNdSt) (hwf : WF s.hist) (v : Item (Coord Int)) (xs : List Int)
+    (hp : Proper s.hist.edges v.data xs) (hno : ∀ idx, ¬ InCell s.hist.edges.axes xs idx) :
+    HistogramNd.fill s v = (⟨{ s.hist with nOut := s.hist.nOut + 1 }, v.context⟩, none) := by
+  unfold HistogramNd.fill
+  rw [fill_out_of_range bisect bisect_ok hwf hp (1 : Int) hno]
+
+/-- **any configuration** (bins, `make_bins`, `initial_value`) whose construction succeeds with well-shaped bins, any
+sequence of coordinates of the right dimension: no fill raises, `compute()` yields the histogram with the last
+context, the edges are the configured ones, and the bins plus `n_out_of_range` hold the initial content plus one per
+filled value -/
+theorem histnd_compute_spec_any (cfg : HistNdCfg) (s0 : HistNdSt) (_hnew : HistogramNd.new cfg = .ok s0)
+    (hwf : WF s0.hist) (vs : List (Item (Coord Int))) (hv : ∀ v ∈ vs, ∃ xs, Proper s0.hist.edges v.data xs) :
+    ∃ hist, ((histogramNdM cfg s0).compute ((histogramNdM cfg s0).fillAll s0 vs)).2
+        = .ok [⟨hist, some (ctxAfter s0.ctx vs)⟩]
+      ∧ hist.edges = s0.hist.edges ∧ WF hist
+      ∧ total hist.bins + hist.nOut = total s0.hist.bins + s0.hist.nOut + (vs.length : Int) := by
+  have hops : OpsOK s0.hist.edges (toOps (1 : Int) (toC06 vs)) := by
+    intro op hm
+    obtain ⟨v, hvm, rfl⟩ := List.mem_map.1 hm
+    obtain ⟨w, hw, rfl⟩ := List.mem_map.1 hvm
+    exact ⟨bisect_ok, hv w hw⟩
+  obtain ⟨h, hf, hwf', hedges⟩ := fillAll_ok (toOps (1 : Int) (toC06 vs)) s0.hist hwf hops
+  have hcons := (fillAll_conserves _ _ _ hf).2
+  have hel : HistEl.fillAll ([] : Ctx) (1 : Int) ⟨s0.hist, s0.ctx⟩ (toC06 vs)
+      = .ok ⟨h, lastCtx ([] : Ctx) s0.ctx (toC06 vs)⟩ := by
+    rw [histEl_fillAll_eq, hf]; rfl
+  have hfa := histnd_fillAll_C06 cfg s0 vs s0 _ hel
+  refine ⟨h, ?_, hedges, hwf', ?_⟩
+  · rw [hfa]
+    simp only [histogramNdM, HistogramNd.compute, lastCtx_eq_ctxAfter]
+  · rw [hcons, sumW_toOps, sumW_replicate_one]; simp [toC06]
+
+open Classical in
+/-- the full per-cell statement for a whole fill sequence in any dimension ("cell `idx` holds its initial content
+plus the number of filled values lying in it"): stated, not proved here — it follows from `histnd_fill_cell` /
+`histnd_fill_out` by induction over the values with C06's `modifyAt` algebra; the proved parts are the single-step
+theorems above, conservation (`histnd_compute_spec_any`) and the one-dimensional `hist_compute_spec` -/
+def histnd_cells_full : Prop :=
+  ∀ (cfg : HistNdCfg) (s0 : HistNdSt), HistogramNd.new cfg = .ok s0 → WF s0.hist →
+    ∀ (vs : List (Item (Coord Int))) (xsOf : Item (Coord Int) → List Int),
+      (∀ v ∈ vs, Proper s0.hist.edges v.data (xsOf v)) →
+      ∀ (idx : List Nat) (c0 : Int), (NArr.get? s0.hist.bins idx) = some (.leaf c0) →
+        NArr.get? ((histogramNdM cfg s0).fillAll s0 vs).hist.bins idx
+          = some (.leaf (c0 + ((vs.filter (fun v => decide (InCell s0.hist.edges.axes (xsOf v) idx))).length : Nat)))
+
+
+end Rev4
+
+/-- the proved part of `histnd_cells_full`: one fill, any well-formed state -/
+theorem histnd_cells_partial (s : HistNdSt) (hwf : C06.WF s.hist) (v : Item (C06.Coord Int)) (xs : List Int)
+    (hp : C06.Proper s.hist.edges v.data xs) (idx : List Nat) (hc : C06.InCell s.hist.edges.axes xs idx) :
+    HistogramNd.fill s v
+      = (⟨{ s.hist with bins := NArr.modifyAt (· + 1) s.hist.bins idx }, v.context⟩, none) :=
+  histnd_fill_cell s hwf v xs hp idx hc
+
 /-! ### non-vacuity of the hypotheses used above -/
 
 example : binIndex [0, 1, 3] 2 = 1 ∧ ([0, 1, 3] : List Int).Pairwise (· < ·) := by decide
